@@ -199,7 +199,9 @@ CLAIMS["C14"] = dict(
          "other inputs untouched; on MIR, finalize_input_helper borrows the PSBT immutably, every success exit passes "
          "the success edge of interpreter_inp_check and returns the checked values; interpreter_inp_check fails on any "
          "yielded error; the eight finalize entry points pass the announced malleability switch, visit every input and "
-         "refuse out-of-range indices; the updater records exactly the BIP-174 scripts per descriptor type.",
+         "refuse out-of-range indices; the updater records exactly the BIP-174 scripts per descriptor type; get_descriptor "
+         "infers a descriptor exactly when redeem / witness scripts and signing keys commit to the spent output (1260 "
+         "combinations of output type x redeem script x witness script x keys).",
     note="Trusted: rust-bitcoin PSBT / lock-time types modelled by fields and consensus encodings; C13 (interpreter) and "
          "C01-C03 (satisfier); rustc THIR/MIR; evaluator. Real signatures / sighashes, extraction, operation-history "
          "independence beyond the per-call state tables, and taproot field population are not decided.",
